@@ -84,6 +84,9 @@ static bool gen_c18(uint64_t seed, const std::string &tier, uint64_t i, Plan &p)
     }
     p.knobs.set("agents", ag);
     p.label = std::string(l ? "lspawn" : "rspawn") + " commands=" + std::to_string(n);
+    // the spawner itself runs out of processes or descriptors, or cannot examine the message file, for one delivery: that delivery is
+    // reported as a temporary failure and the others go on (one report per command, whatever happens)
+    if (r.chance(0.2)) { Fault f; f.actor = std::string(l ? "qmail-lspawn#" : "qmail-rspawn#"); f.call = r.pick(std::vector<CallId>{C_FSTAT, C_PIPE, C_FORK, C_FORK}); f.nth = (int)r.range(1, 4); f.kind = "error"; f.err = r.pick(std::vector<int>{EAGAIN, ENOMEM, EMFILE, ENFILE, EIO}); p.faults.push_back(f); p.label += " +spawner fault"; }
     return true;
   }
   // (c) qmail-send under hostile report streams (world Q, C03 safety oracle keeps judging)
